@@ -27,7 +27,7 @@ def LooksAgain (s : State κ ν) : Prop :=
   match s.pc with
   | .absent | .exiting => False
   | .top | .firing _ | .popped _ | .running _ => True
-  | .peeked r | .polled r | .armed r => Covers s r
+  | .peeked r | .polled r | .arming r | .armed r => Covers s r
 
 /-- **served**: whenever the processor is open and the queue is non-empty, a live loop goroutine
 holds the running token and will look at the queue again. -/
@@ -55,15 +55,58 @@ theorem served {s : State κ ν} (hr : Reach (lts fixedCfg) s) (hopen : s.stoppe
   | running r => trivial
   | peeked r => exact hB.2 r (by simp [hp])
   | polled r => exact hB.2 r (by simp [hp])
+  | arming r => exact hB.2 r (by simp [hp])
   | armed r => exact hB.2 r (by simp [hp])
 
 /-- **none_stranded**: from every reachable state of an open processor in which `x` is live and
-due, the loop goroutine alone — no environment action, no clock advance — reaches the start of
-`x`'s callback (assuming callbacks return: `cbReturn` is one of the loop's labels). -/
+due and the loop's pending timer (if it has one and no reset is buffered) is due (`Timely`), the loop
+goroutine alone — no environment action, no clock advance — reaches the start of `x`'s callback
+(assuming callbacks return: `cbReturn` is one of the loop's labels).  `Timely` can only fail when the
+clock advanced between the loop's `Now()` and its `NewTimer()`; see `late_bound`. -/
 theorem none_stranded {s : State κ ν} {x : Item κ ν} (hr : Reach (lts fixedCfg) s)
-    (hopen : s.stopped = false) (hx : x ∈ s.q) (hdue : x.time ≤ s.now) :
+    (hopen : s.stopped = false) (hx : x ∈ s.q) (hdue : x.time ≤ s.now) (ht : Timely s) :
     ∃ s', Steps (lts fixedCfg) LoopLabel s s' ∧ Event.exec x s.now ∈ s'.log :=
-  progress ⟨hr, hopen, hx, hdue⟩
+  progress ⟨hr, hopen, hx, hdue, ht⟩
+
+/-- **late_bound**: the loop's timer is never early and is late by exactly the clock time that
+passed between its reading the clock (`Now()`, ghost `readAt`) and its creating the timer
+(`NewTimer()`, ghost `armAt`): while between the two calls the computed duration is
+`scheduled − readAt`; once armed the timer fires at `scheduled + (armAt − readAt)`. -/
+theorem late_bound {s : State κ ν} (hr : Reach (lts fixedCfg) s) {r : Item κ ν} :
+    (s.pc = .arming r → s.timer = r.time - s.readAt ∧ s.readAt ≤ s.now) ∧
+    (s.pc = .armed r → s.timer = r.time + (s.armAt - s.readAt) ∧ s.readAt ≤ s.armAt ∧ s.armAt ≤ s.now) :=
+  ⟨(invT hr).1 r, (invT hr).2 r⟩
+
+/-- If the clock did not advance between the two calls, the timer is exact, hence `Timely` holds
+whenever the head it was armed for is due. -/
+theorem timer_exact_without_advance {s : State κ ν} (hr : Reach (lts fixedCfg) s) {r : Item κ ν}
+    (hpc : s.pc = .armed r) (h : s.armAt = s.readAt) : s.timer = r.time := by
+  have := ((invT hr).2 r hpc).1
+  rw [this, h]; omega
+
+/-- **runs_when_clock_reaches** (none stranded, with the clock): in every reachable open state, a
+live item `x` is executed by the loop alone as soon as the clock has reached both its scheduled
+time and the loop's pending wake-up (`wakeBound`: the armed timer, `now + duration` if the loop is
+between `Now()` and `NewTimer()`, otherwise now) — a path of loop steps and ONE advance to `T`. -/
+theorem runs_when_clock_reaches {s : State κ ν} {x : Item κ ν} (hr : Reach (lts fixedCfg) s)
+    (hopen : s.stopped = false) (hx : x ∈ s.q) {T : Int} (hT : s.now ≤ T) (hxT : x.time ≤ T)
+    (hw : wakeBound s ≤ T) :
+    ∃ s', Steps (lts fixedCfg) (LoopOrAdvance T) s s' ∧ Event.exec x T ∈ s'.log :=
+  Kit.Processor.runs_when_clock_reaches hr hopen hx hT hxT hw
+
+/-- How late that can be: if the loop is armed for `r` with no reset buffered, every live item `x`
+is at or after `r`, so the pending wake-up is at most `x.time` plus the clock time that passed
+between the loop's `Now()` and `NewTimer()`. -/
+theorem wake_bound_le {s : State κ ν} (hr : Reach (lts fixedCfg) s) {r x : Item κ ν}
+    (hpc : s.pc = .armed r) (hreset : s.reset = false) (hx : x ∈ s.q) :
+    wakeBound s ≤ x.time + (s.armAt - s.readAt) := by
+  have h1 := ((invT hr).2 r hpc).1
+  have h2 := (invB hr).2 r (Or.inr (Or.inr (Or.inr hpc)))
+  rcases h2 with h2 | h2
+  · simp [hreset] at h2
+  · have := h2 x hx
+    simp only [wakeBound, hpc]
+    omega
 
 /-- **exactly_once** (at most once; "at least once" is `none_stranded`): a callback for `r` is
 preceded by exactly one pop of `r` and neither preceded nor followed by another callback for `r`. -/
@@ -408,7 +451,27 @@ theorem open_run : runFrom fixedCfg init [.enqueue 1 0 () true] = some openState
 
 /-- `served` / `none_stranded` have instances: an open processor with a due item. -/
 example : Reach (lts fixedCfg) openState ∧ openState.stopped = false ∧ openState.q ≠ [] ∧
-    ∃ x ∈ openState.q, x.time ≤ openState.now :=
-  ⟨reach_of_run Reach.init open_run, rfl, by simp [openState], by simp [openState]⟩
+    (∃ x ∈ openState.q, x.time ≤ openState.now) ∧ Timely openState :=
+  ⟨reach_of_run Reach.init open_run, rfl, by simp [openState], by simp [openState],
+   timely_of_pc (by simp [openState]) (by simp [openState])⟩
+
+/-- `late_bound` is not vacuous and the lateness is real: Enqueue an item 10 ms ahead, the loop reads
+the clock (duration 10 ms), the clock advances by 4 ms, the loop creates its timer: it fires at 14 ms. -/
+def lateState : State Nat Unit :=
+  { q := [⟨1, 10000000, (), 0⟩], token := .loop, reset := false, stopped := false, stopClosed := false,
+    pc := .armed ⟨1, 10000000, (), 0⟩, cpc := .idle, now := 4000000, nextId := 1,
+    log := [.enq ⟨1, 10000000, (), 0⟩], timer := 14000000, readAt := 0, armAt := 4000000 }
+
+theorem late_run : runFrom fixedCfg init
+    [.enqueue 1 10000000 () true, .peek (some ⟨1, 10000000, (), 0⟩), .pollNone, .decide, .advance 4000000, .arm]
+    = some lateState := by
+  simp [runFrom, lateState, step, init, process, enqGuard, lookup, remove, Queue.insert, IsHead, IsMin,
+    halfMs, Kit.Generated.C06.runNowMarginNs]
+
+/-- **late_witness**: the lateness `late_bound` allows does occur — a reachable state of the current
+code in which the item is due at 10 ms but the loop's only wake-up is at 14 ms. -/
+theorem late_witness : Reach (lts fixedCfg) lateState ∧ lateState.timer = 14000000 ∧
+    (∀ x ∈ lateState.q, x.time = 10000000) ∧ lateState.armAt - lateState.readAt = 4000000 :=
+  ⟨reach_of_run Reach.init late_run, rfl, by simp [lateState], rfl⟩
 
 end Kit.Processor.C06
